@@ -419,6 +419,7 @@ def built_from(fn: ast.AST, name: str) -> Set[str]:
 
 
 def check_result_order(chk, fi: FuncInfo) -> None:
+    fi = c03e.normalised(fi)
     rets = [r for r in fi.node.body if isinstance(r, ast.Return)]
     if len(rets) != 1 or not isinstance(rets[0].value, ast.Tuple) or len(rets[0].value.elts) != 3:
         chk.violation("result-order", fi.where, "find_pairs does not end in `return <base pairs>, <base phosphates>, <base riboses>`", K(fi, "result"))
@@ -541,6 +542,10 @@ def check_order_keys(chk, rule: str = "order-keys") -> None:
 # emission of BasePhosphate / BaseRibose objects
 # ---------------------------------------------------------------------------------------------------------------------
 def with_local_helpers_inlined(fi: FuncInfo) -> FuncInfo:
+    return c03e.normalised(fi)
+
+
+def _with_local_helpers_inlined_old(fi: FuncInfo) -> FuncInfo:
     """A copy of the function in which calls of its own nested single-purpose helpers (`def as_residue(r): return Residue(...)`)
     are replaced by their bodies, so that the emitted objects are read in the same form as before the extraction."""
     from sa.inline import inline_in_function
@@ -592,27 +597,128 @@ def constructed(fi: FuncInfo, ctor: str) -> List[Tuple[ast.Call, ast.expr, ast.A
     return out
 
 
-def check_bph_emission(chk, fi: FuncInfo, mp: str, cls_name: str, en: str) -> None:
-    fi2 = with_local_helpers_inlined(fi)
+def check_bph_emission(chk, fi: FuncInfo, store: str, cls_name: str, en: str) -> None:
+    """Every (pair, class) of merge_and_clean_bph_br(sorted(<store>)) becomes cls(Residue(donor), Residue(acceptor), en[_class]).
+    Read over the elements of the collection the objects are built from; a shape that cannot be read is an analysis error."""
+    fi2 = c03e.normalised(fi)
     cons = constructed(fi2, cls_name)
     if len(cons) != 1:
-        chk.violation("bph-emission", fi.where, f"{cls_name} objects are built at {len(cons)} unconditional place(s) (loop with one append / comprehension), expected one", K(fi, f"{mp}-emission"))
+        chk.error("bph-emission", fi.where, f"{cls_name} objects are built at {len(cons)} readable place(s) (loop with one append / comprehension), expected one")
         return
     call, it, site = cons[0]
-    src_ok = norm(it) == f"{mp}.items()"
+    # the collection: <M>.items() with M = merge_and_clean_bph_br(sorted(<store>)), directly or through a local bound once
+    m_items = astq.match(it, "M_.items()")
+    src = m_items["M_"] if m_items else None
+    for _ in range(3):
+        if isinstance(src, ast.Name):
+            d = [v for s2, v in astq.assignments(fi2.node, src.id) if v is not None]
+            src = d[0] if len(d) == 1 else None
+    mm = astq.match(src, "merge_and_clean_bph_br(A_)") if src is not None else None
+    if mm is None:
+        chk.error("sorted-emission", fi.site(site), f"{cls_name} objects are built from `{norm(it)[:60]}`, which is not traced to merge_and_clean_bph_br(...).items()")
+        return
+    arg = norm(mm["A_"])
+    if arg == f"sorted({store})":
+        chk.ok("sorted-emission", fi.site(site), f"{cls_name}: built from merge_and_clean_bph_br(sorted({store})) - the sorted contact list")
+    elif arg in (store, f"list({store})", f"reversed({store})", f"set({store})"):
+        chk.violation("sorted-emission", fi.site(site), f"{cls_name} objects come from merge_and_clean_bph_br({arg}), not from the sorted contact list: output order follows KD-tree order", K(fi, f"{cls_name}-sorted"), found=arg)
+    else:
+        chk.error("sorted-emission", fi.site(site), f"{cls_name}: argument `{arg[:60]}` of merge_and_clean_bph_br not recognised (expected sorted({store}))")
     E = None
     for x in ast.walk(call):
         r = SX.is_elem(x)
         if r is not None and norm(r) == norm(it):
             E = norm(x)
             break
-    ok = False
     got = [norm(a)[:80] for a in call.args]
-    if E is not None and len(call.args) == 3 and not call.keywords:
-        a, b = f"{E}[0][0]", f"{E}[0][1]"
-        want01 = [f"Residue({a}.label, {a}.auth)", f"Residue({b}.label, {b}.auth)"]
-        m = astq.match(call.args[2], f"{en}[X_]")
-        parts = str_parts(m["X_"]) if m else None
-        cls_ok = parts is not None and len(parts) == 2 and parts[0] == "'_'" and SX.is_elem(ast.parse(parts[1], mode="eval").body) is not None and norm(SX.is_elem(ast.parse(parts[1], mode="eval").body)) == f"{E}[1]"
-        ok = [norm(x) for x in call.args[:2]] == want01 and cls_ok
-    chk.expect(ok and src_ok, "bph-emission", fi.site(site), f"every (pair, class) of {mp} becomes {cls_name}(Residue(donor), Residue(acceptor), {en}[_class]) (read over the elements of {mp}.items())", f"{cls_name} objects are not built as (Residue(donor), Residue(acceptor), {en}[f'_{{class}}']) from every (pair, class) of {mp}: built from `{norm(it)[:50]}` as {got}", K(fi, f"{mp}-emission"), found=got)
+    if E is None or len(call.args) != 3 or call.keywords:
+        chk.error("bph-emission", fi.site(site), f"{cls_name}(...) arguments {got} not read over the elements of the collection")
+        return
+    a, b = f"{E}[0][0]", f"{E}[0][1]"
+    want01 = [f"Residue({a}.label, {a}.auth)", f"Residue({b}.label, {b}.auth)"]
+    m = astq.match(call.args[2], f"{en}[X_]")
+    parts = str_parts(m["X_"]) if m else None
+    cls_ok = False
+    if parts is not None and len(parts) == 2 and parts[0] == "'_'":
+        try:
+            pe = SX.is_elem(ast.parse(parts[1], mode="eval").body)
+            cls_ok = pe is not None and norm(pe) == f"{E}[1]"
+        except SyntaxError:
+            cls_ok = False
+    ok = [norm(x) for x in call.args[:2]] == want01 and cls_ok
+    chk.expect(ok, "bph-emission", fi.site(site), f"every (pair, class) becomes {cls_name}(Residue(donor), Residue(acceptor), {en}[_class]) (read over the elements of the merged map)", f"{cls_name} objects are not built as (Residue(donor), Residue(acceptor), {en}[f'_{{class}}']) from every (pair, class) of the merged map: arguments {got}", K(fi, f"{cls_name}-emission"), found=got)
+
+
+# ---------------------------------------------------------------------------------------------------------------------
+# sorted(<recorded tuples>, key=...) - the key must be the residues' own order
+# ---------------------------------------------------------------------------------------------------------------------
+def check_sort_key(chk, fi: FuncInfo, call: ast.Call, rule: str, what: str) -> Optional[bool]:
+    """`sorted(X)` orders the recorded (residue, residue, ...) tuples by Residue3D.__lt__.  With `key=` the order is whatever the key
+    says: it is the same order only if, residue by residue, the key holds the residue itself or every component Residue3D.__lt__
+    compares, in its order.  Returns True (same order), False (reported), None (not readable: reported as analysis error)."""
+    keys = [k for k in call.keywords if k.arg == "key"]
+    if not keys:
+        return True
+    if any(k.arg == "reverse" for k in call.keywords):
+        chk.error(rule, fi.site(call), f"{what}: sorted(..., reverse=...) not read")
+        return None
+    kf = keys[0].value
+    body = None
+    param = None
+    if isinstance(kf, ast.Lambda) and len(kf.args.args) == 1:
+        param, body = kf.args.args[0].arg, [ast.Return(value=kf.body)]
+    elif isinstance(kf, ast.Name):
+        defs = [n for n in ast.walk(fi.node) if isinstance(n, ast.FunctionDef) and n.name == kf.id]
+        if len(defs) == 1 and len(defs[0].args.args) == 1:
+            param, body = defs[0].args.args[0].arg, defs[0].body
+    if body is None:
+        chk.error(rule, fi.site(call), f"{what}: sort key `{norm(kf)[:60]}` not readable")
+        return None
+    elem = ast.Tuple(elts=[ast.Name(id="R1", ctx=ast.Load()), ast.Name(id="R2", ctx=ast.Load()), ast.Name(id="REST", ctx=ast.Load())], ctx=ast.Load())
+    try:
+        paths = [p for p in SX.run(body, {param: elem}) if p.exit == "return"]
+    except SX.TooManyPaths:
+        paths = []
+    if len(paths) != 1 or paths[0].conds:
+        chk.error(rule, fi.site(call), f"{what}: sort key `{norm(kf)[:60]}` is not one expression of the recorded tuple")
+        return None
+    ret = paths[0].ret
+    comps = list(ret.elts) if isinstance(ret, ast.Tuple) else [ret]
+    f3 = chk.repo.func(T3, "Residue3D.__lt__")
+    ks = order_keys(f3)
+    if ks is None or len({tuple(k) for _, k in ks}) != 1:
+        chk.error(rule, fi.site(call), "ordering key of Residue3D.__lt__ not readable")
+        return None
+    full = [t.replace("X.", "").split(" or ")[0] for t in ks[0][1]]
+    seen: Dict[str, List[str]] = {"R1": [], "R2": []}
+    order: List[str] = []
+    for c in comps:
+        t = norm(c)
+        if t in ("R1", "R2"):
+            seen[t] = list(full)
+            order.append(t)
+            continue
+        if t == "REST":
+            continue
+        e = c.values[0] if isinstance(c, ast.BoolOp) and isinstance(c.op, ast.Or) and len(c.values) == 2 and isinstance(c.values[1], ast.Constant) else c
+        if isinstance(e, ast.Attribute) and isinstance(e.value, ast.Name) and e.value.id in seen:
+            seen[e.value.id].append(e.attr)
+            order.append(e.value.id)
+            continue
+        chk.error(rule, fi.site(call), f"{what}: component `{t[:50]}` of the sort key not readable")
+        return None
+    grouped = [r for k, r in enumerate(order) if k == 0 or order[k - 1] != r]
+    problems = []
+    for r in ("R1", "R2"):
+        miss = [f for f in full if f not in seen[r]]
+        if miss:
+            problems.append(f"the {'first' if r == 'R1' else 'second'} residue without {miss}")
+        elif [f for f in seen[r] if f in full] != full:
+            problems.append(f"the components of the {'first' if r == 'R1' else 'second'} residue in the order {seen[r]}")
+    if grouped != ["R1", "R2"]:
+        problems.append("the two residues interleaved or in the other order")
+    if problems:
+        chk.violation(rule, fi.site(call), f"{what} are sorted with the key `{norm(ret)[:90]}`: it holds {'; '.join(problems)}, while Residue3D.__lt__ - the order that `lower residue first` and every other sorted list use - compares {full}: residues that differ only in the omitted component tie and keep their KD-tree arrival order (or follow their partner), so the list is not in residue order", K(fi, "sort-key"), expected=full, found={k: v for k, v in seen.items()})
+        return False
+    chk.ok(rule, fi.site(call), f"{what}: the sort key holds, residue by residue, every component Residue3D.__lt__ compares ({full})")
+    return True
